@@ -371,6 +371,27 @@ pub fn run_c12(ctx: &Ctx) -> i32 {
                 }
             }
         }
+        // a migration whose migrate entry point itself emits admin messages: they are sent by the
+        // migrated CONTRACT (never by the admin who requested the migration)
+        for s in &senders {
+            for (mi, sub) in [
+                Msg::UpdateAdmin { target: Target::SelfC, admin: ad.poor.clone() },
+                Msg::ClearAdmin { target: Target::SelfC },
+                Msg::UpdateAdmin { target: Target::Other, admin: ad.poor.clone() },
+                Msg::Migrate { target: Target::Other, code: 2, node: 1 },
+            ]
+            .into_iter()
+            .enumerate()
+            {
+                let mut root = mig_node(2, false);
+                root.subs.push(Sub { id: 100, payload: vec![], reply_on: Mode::Never, msg: sub, reply: None });
+                let mut nodes = vec![root];
+                if mi == 3 {
+                    nodes.push(mig_node(2, false));
+                }
+                alphabet.push(Program { entry: Entry::User { sender: s.clone(), msg: Msg::Migrate { target: Target::Addr(t.clone()), code: 2, node: 0 } }, root: 0, nodes });
+            }
+        }
         // plain execute: shows which code serves the contract
         alphabet.push(Program { entry: Entry::Execute { sender: ad.poor.clone(), contract: t.clone(), funds: vec![] }, root: 0, nodes: vec![Node { writes: vec![WriteOp::Set(b"touched".to_vec(), b"1".to_vec())], ..Default::default() }] });
         alphabet.push(Program { entry: Entry::WasmSudo { contract: t.clone() }, root: 0, nodes: vec![Node::default()] });
